@@ -23,6 +23,17 @@ TRUSTED_BASE = [
     "hand-written Gallina model coq/Model/*.v: tied to the code only by the correspondence check (differential, generator quality bounds it)",
 ]
 
+TRUSTED_BASE_CL = [
+    "Coq 8.16.1 kernel; vm_compute (finite-table obligations, concrete finding witnesses); no native_compute",
+    "Print Assumptions of every pinned theorem must be 'Closed under the global context' (checked each run)",
+    "explicit premises of the theorems: good_key (1 < N, 1 < phi, Euler's theorem for N, b and c coprime to N), bases coprime to N, non-negative draws; primality of generated primes is GMP's (probable primes), re-tested not proved",
+    "rug::Integer / GMP arithmetic modelled by Coq's Z (pow_mod, invert, gcd, sqrt, `%` = Z.rem, to_string, from_digits); GMP's next_prime / is_probably_prime replaced by logged results and a 12-base Miller-Rabin",
+    "translator gen/consts.py (cl03/ciphersuites.rs, range_proof.rs constants, random_bits arguments of sigma_protocols.rs -> Generated/ClConsts.v)",
+    "extraction: ExtrOcamlBasic, ExtrOcamlZBigInt (positive/N/Z -> zarith with its Extract Constant Pos.*/N.*/Z.* directives) plus Extract Constant N.land/N.lor/N.lxor",
+    "OCaml driver ocaml/driver.ml (incl. its JSON flattener), zarith; Python flattener vlib/clj.py; Rust harness harness/implrun/src/cl.rs (toy ciphersuite defined there) and hooks (feature verif_hooks) in /repo",
+    "hand-written Gallina model coq/Model/Cl.v: tied to the code only by the correspondence check (differential with logged randomness; generator quality bounds it)",
+]
+
 def run_check(pid, prop, tier, seed):
     t0 = time.time()
     ev = {"property_id": pid, "tier": tier, "seed": seed, "level": prop.LEVEL, "coverage": {}, "assumptions": [], "violations": 0}
@@ -54,7 +65,7 @@ def run_check(pid, prop, tier, seed):
     cov["pinned_theorems"] = pinned
     cov["print_assumptions"] = {"closed_under_global_context": closed, "axioms": axioms}
     cov["checker_cmd"] = "make -C coq Properties/%s.vo (coqc 8.16.1, full .vo build) + Print Assumptions + vernacular grep" % pid
-    cov["trusted_base"] = TRUSTED_BASE + getattr(prop, "EXTRA_TRUST", [])
+    cov["trusted_base"] = (TRUSTED_BASE_CL if getattr(prop, "CL03", False) else TRUSTED_BASE) + getattr(prop, "EXTRA_TRUST", [])
     # ---- 2. builds
     okh, outh = C.build_harness(cl03=True)
     if not okh:
